@@ -3,6 +3,11 @@
 Pure-function property: Wire.tla is a format grammar (layout, hash layout, decoder with the canonical-form
 rules, perturbations).  TLC checks the grammar on every type x shape x version case and prints the cases;
 harness/wire renders each layout to bytes and compares with the real encoder / decoder / hash (direction A).
+
+Every case and every perturbation is decoded through the three Reader implementations (Wire.tla `Readers`: BinReader,
+BufReader on a BytesMut as the p2p codec does, StreamingReader); Block / CompactBlock / BlockHeader cases with an admissible
+(really mined) header are additionally decoded through the network readers Untrusted* (`via = untrusted`, Wire.tla DecVia).
+Signatures: wire:<type>:<what>[:<class>][:via=untrusted][:reader=buf|stream].
 """
 import json, os, collections, copy
 import vlib
@@ -23,7 +28,34 @@ def signature(case, m):
     s = "wire:%s:%s" % (ty, what)
     if cls:
         s += ":" + cls
+    if case.get("via") == "untrusted":
+        s += ":via=untrusted"   # the network reader (UntrustedBlockHeader / UntrustedBlock / UntrustedCompactBlock) of the type
+    if m.get("rd"):
+        # a deviation of BufReader / StreamingReader that the BinReader pass of the same case did not show
+        s += ":reader=" + m["rd"]
     return s
+
+
+def tlc_retry(what, *a, **kw):
+    """TLC was seen to stop without a verdict on the PeerAddrs n=256 case with a Java StackOverflowError (recursion depth 256 in
+    DecMany / Flatten is at the edge of the default thread stack; whether it overflows depends on JIT timing, i.e. on machine
+    load).  The runs now get -Xss512m; one more attempt is still made before giving up with a tool error."""
+    r = None
+    for attempt in (1, 2):
+        try:
+            r = vlib.tlc(*a, **kw)
+        except ToolError as ex:
+            log("C10: %s attempt %d: %s" % (what, attempt, ex))
+            if attempt == 2:
+                raise
+            continue
+        if r.finished or r.invariant_violated:
+            return r
+        diag = [l[:400] for l in r.out.splitlines() if "WIRECASE" not in l[:24]]
+        dp = os.path.join(vlib.workdir(PID, clean=False), "tlc_incomplete_%s_%d.txt" % (what.replace(" ", "_"), attempt))
+        open(dp, "w").write("\n".join(diag))
+        log("C10: %s attempt %d did not complete (rc=%s), messages saved in %s; last: %s" % (what, attempt, getattr(r, "rc", "?"), dp, " | ".join(diag[-4:])[:500]))
+    return r
 
 
 def wrapped(out, tag):
@@ -91,7 +123,7 @@ def run(tier, replay):
 
     # (M) the grammar: round trip, re-encoding, hash stability, refusal of every canonical-rule perturbation
     sfx = "_thorough" if thorough else ""
-    r = vlib.tlc("mc/MC_Wire", "mc/MC_Wire" + sfx, workers=4, coverage=False, timeout=2400)
+    r = tlc_retry("MC_Wire", "mc/MC_Wire", "mc/MC_Wire" + sfx, workers=3, coverage=False, timeout=3000, xss="512m")
     if r.invariant_violated:
         print(r.out[-3000:])
         raise ToolError("Wire.tla: invariant %s violated inside the grammar (the transcription is inconsistent)" % r.invariant_violated)
@@ -99,7 +131,7 @@ def run(tier, replay):
     states, trans = r.distinct, r.generated
 
     # (A) cases -> real encoder / decoder / hash
-    e = vlib.tlc("mc/MC_Wire", "mc/MC_Wire_emit" + sfx, workers=1, coverage=False, timeout=2400, xmx="8g")
+    e = tlc_retry("MC_Wire emit", "mc/MC_Wire", "mc/MC_Wire_emit" + sfx, workers=1, coverage=False, timeout=3000, xmx="8g", xss="512m")
     vlib.tlc_ok(e, "MC_Wire emit")
     cases = [json.loads(x) for x in e.printed("WIRECASE")]
     packs = [json.loads(x) for x in e.printed("PACKCASE")] + wrapped(e.out, "PACKCASE")
@@ -159,7 +191,12 @@ def run(tier, replay):
         "model": {"config": "mc/MC_Wire" + sfx, "tier": tier},
         "cases_replayed": len(cases), "instantiations_per_case": inst, "impl_checks": checks,
         "cases_per_type": dict(per_type), "perturbations": nperts, "perturbations_per_class": dict(per_pert),
-        "versions": [1, 2, 3, 1000], "bitpack_samples_checked": npack, "selftest_wrong_expectations_detected": nself,
+        "versions": [1, 2, 3, 1000], "readers": sorted(set(x for c in cases for x in c.get("readers", ["bin"]))),
+        "cases_via_untrusted_reader": sum(1 for c in cases if c.get("via") == "untrusted"),
+        "bitmap_segment_heights": sorted(set(c["sh"]["h"] for c in cases if c["ty"] == "BitmapSegment" and "h" in c["sh"])),
+        "peer_addr_classes": sorted(set(c["sh"]["cls"] for c in cases if c["ty"] == "PeerAddr")),
+        "cases_expected_refused": sum(1 for c in cases if not c["readable"]),
+        "bitpack_samples_checked": npack, "selftest_wrong_expectations_detected": nself,
         "scope_probes_not_verdicts": probes, "mismatching_checks_per_signature": dict(nsig),
         "checker_cmd": "tlc mc/MC_Wire (check + emit); h_wire replay",
     }
@@ -169,5 +206,8 @@ def run(tier, replay):
         "range proofs are 675 bytes (RangeProof::read pads shorter ones: outside the statement's canonical-form list, probed only)",
         "decoders are exercised through ser::deserialize on a byte slice (trailing bytes after a short count are the framing layer's business, C19)",
         "Headers has no Readable (streamed by the codec): layout only; SegmentProof values are obtained through its own reader",
+        "network readers (Untrusted*): the proof of work is a primitive - admissible headers are mined with grin's own pow_size at AutomatedTesting parameters (height 0, version 1, timestamp 0); headers outside that class are not compared",
+        "the byte counters of the readers (BufReader::bytes_read, StreamingReader::total_bytes_read) belong to the framing layer (C19): consumption is measured on the buffer / stream itself (probe: total_bytes_read counts a length prefix twice)",
+        "BitmapSegment: identifier idx = 0 (leaf_offset overflow rules for huge idx are not enumerated)",
     ]
     return rep.finish()
